@@ -62,6 +62,9 @@ def worker_lp(case, seed):
             goal("human round: biofuel drawn from human-edible food == amount charged", SP.biofuel_sum(M, m) == SP.zz_s(M.S["biofuel"][m]), m)
         else:
             goal("feed round: feed <= demand ceiling", SP.feed_sum(M, m) <= SP.zz_s(M.S["max_feed"][m]), m)
+            if m > 0:
+                # what keeps late surpluses from the animals while the early months are pinned to people
+                goal("feed round: feed drawn never rises from one month to the next", SP.feed_sum(M, m) <= SP.feed_sum(M, m - 1), m)
             goal("feed round: biofuel <= demand ceiling", SP.biofuel_sum(M, m) <= SP.zz_s(M.S["max_biofuel"][m]), m)
         if m >= k:
             for c in comps:
@@ -130,6 +133,8 @@ def _replay_lp_on(case, cfg, vals, cx, N, k):
             bad.append("month %d feed %r vs %r" % (m, fs(m), capf))
         if (human and abs(bs(m) - capb) > tol) or (not human and bs(m) > capb + tol):
             bad.append("month %d biofuel %r vs %r" % (m, bs(m), capb))
+        if not human and m > 0 and fs(m) > fs(m - 1) + 1e-6 * (1 + fs(m - 1)):
+            bad.append("month %d: feed drawn rises from %r to %r in the feed round" % (m, fs(m - 1), fs(m)))
         if m >= k and (fs(m) > 1e-6 or bs(m) > 1e-6):
             bad.append("month %d >= shut-off month %d still draws feed %r / biofuel %r" % (m, k, fs(m), bs(m)))
     if not human and "pins" in vals:
@@ -142,7 +147,7 @@ def _replay_lp_on(case, cfg, vals, cx, N, k):
                     if g(key, m) * ratio < (1 - 1e-4) * pin - 1e-9:
                         bad.append("month %d: people get %r of %s in the feed round, pinned minimum %r" % (m, g(key, m) * ratio, food, pin))
     return dict(reproduced=bool(bad), what="CBC's allocation: " + "; ".join(bad[:3]) if bad else "CBC's optimum respects the schedule on this instance", inputs=dict(case=case, supplies=vals),
-                key="lp/" + ("after shut-off" if any("shut-off" in b for b in bad) else ("pinned minimum not kept" if any("pinned minimum" in b for b in bad) else "charge mismatch")))
+                key="lp/" + ("after shut-off" if any("shut-off" in b for b in bad) else ("pinned minimum not kept" if any("pinned minimum" in b for b in bad) else ("feed rises" if any("rises" in b for b in bad) else "charge mismatch"))))
 
 
 def worker_handoff(case, seed):
